@@ -158,6 +158,7 @@ func checkC04(w *World, r *Report) {
 	// barrier - is catchable: the function that runs the try body starts with a deferred handler that calls
 	// recover() itself (recover only works in the deferred function's own frame)
 	recoverDirectRule(w, r, "C04.recover-direct")
+	chanCloseRule(w, r, "C04.chan-close")
 	r.rule("C04.try-barrier", "the function or closure that evaluates the body of try starts by deferring a function that calls recover() directly and stores the error into the runner's own result (a panic raised in a try body reaches catch instead of the host)")
 	if m := newEvalModel(w, e); m.ok {
 		if reg, ok := m.regions["try"]; ok {
@@ -310,6 +311,7 @@ func checkC05(w *World, r *Report) {
 			return
 		}
 	}
+	packageMapRule(w, r, "C05.package-maps", entries)
 	// the read-string builtin: the registered function literal that calls Read_str
 	readStr := w.Fn("reader", "Read_str")
 	for _, fn := range w.Funcs {
@@ -446,4 +448,139 @@ func recoverDirectRule(w *World, r *Report, rule string) {
 		}
 	}
 	r.floor(rule, "uses of functions that call recover()", n, 3)
+}
+
+// chanCloseRule: sending on a closed channel and closing a channel twice panic, in whatever goroutine does
+// it - for the goroutine of a future that is a goroutine without any recover, so the host dies. A channel
+// kept in a struct field (it is shared by whoever holds the struct) that some function closes is therefore
+// sent on by no other function, and closed at one place only.
+func chanCloseRule(w *World, r *Report, rule string) {
+	r.rule(rule, "a channel held in a struct field of the runtime packages that is closed anywhere is closed at exactly one place, and no function other than the closing one sends on it (a send on a closed channel, or a second close, is a Go panic in a goroutine no recover handler covers)")
+	type fkey struct {
+		t types.Type
+		i int
+	}
+	fieldOfChan := func(v ssa.Value) (fkey, bool) {
+		ld, ok := v.(*ssa.UnOp)
+		if !ok || ld.Op != token.MUL {
+			return fkey{}, false
+		}
+		fa, ok := ld.X.(*ssa.FieldAddr)
+		if !ok {
+			return fkey{}, false
+		}
+		pt, ok := fa.X.Type().Underlying().(*types.Pointer)
+		if !ok {
+			return fkey{}, false
+		}
+		return fkey{pt.Elem(), fa.Field}, true
+	}
+	closes := map[fkey][]ssa.Instruction{}
+	sends := map[fkey][]ssa.Instruction{}
+	nChanOps := 0
+	for _, fn := range w.Funcs {
+		if isTestFunc(w, fn) || !runtimePkg(fnPkgPath(fn)) {
+			continue
+		}
+		for _, b := range fn.Blocks {
+			for _, in := range b.Instrs {
+				switch x := in.(type) {
+				case *ssa.Send:
+					nChanOps++
+					if k, ok := fieldOfChan(x.Chan); ok {
+						sends[k] = append(sends[k], in)
+					}
+				case *ssa.Select:
+					for _, st := range x.States {
+						nChanOps++
+						if st.Dir == types.SendOnly {
+							if k, ok := fieldOfChan(st.Chan); ok {
+								sends[k] = append(sends[k], in)
+							}
+						}
+					}
+				case ssa.CallInstruction:
+					if bi, ok := x.Common().Value.(*ssa.Builtin); ok && bi.Name() == "close" {
+						nChanOps++
+						if k, ok := fieldOfChan(x.Common().Args[0]); ok {
+							closes[k] = append(closes[k], in)
+						}
+					}
+				}
+			}
+		}
+	}
+	for k, cl := range closes {
+		name := shortType(k.t) + "." + fieldName(types.NewPointer(k.t), k.i)
+		for _, c := range cl[1:] {
+			r.bad(rule, c.Parent(), "second close of "+name, c.Pos(), "the channel is closed at more than one place: whichever close comes second panics")
+		}
+		for _, s := range sends[k] {
+			if s.Parent() != cl[0].Parent() {
+				r.bad(rule, s.Parent(), "send on "+name+", a channel that is closed elsewhere", s.Pos(), "the channel is closed by "+cl[0].Parent().String()+" while this function still sends on it: when the close comes first the send panics in its goroutine (no recover handler there), and the embedding program dies")
+			}
+		}
+	}
+	r.add(rule, nil, "channel operations of the runtime packages", token.NoPos, "ok", fmt.Sprintf("%d sends, select cases and closes examined, %d field channels closed", nChanOps, len(closes)))
+	r.floor(rule, "channel operations of the runtime packages", nChanOps, 4)
+}
+
+// packageMapRule: the Go runtime answers a map written by one goroutine while another reads or writes it
+// with "fatal error: concurrent map writes" - no panic, nothing a recover handler sees, the process is gone.
+// Reads run concurrently (futures, hosts serving requests), so nothing in the call closure of the reading
+// and printing entry points writes into a package-level map.
+func packageMapRule(w *World, r *Report, rule string, entries []*ssa.Function) {
+	r.rule(rule, "no function in the call closure of READ, READWithPreamble, Read_str, PRINT and Pr_str inserts into or deletes from a map held by a package-level variable (two reads at once would abort the process with a fatal error that is neither an error value nor a recoverable panic)")
+	reach := w.reachableFrom(entries)
+	n := 0
+	for fn := range reach {
+		if isTestFunc(w, fn) {
+			continue
+		}
+		n++
+		for _, b := range fn.Blocks {
+			for _, in := range b.Instrs {
+				var m ssa.Value
+				switch x := in.(type) {
+				case *ssa.MapUpdate:
+					m = x.Map
+				case ssa.CallInstruction:
+					if bi, ok := x.Common().Value.(*ssa.Builtin); ok && (bi.Name() == "delete" || bi.Name() == "clear") && len(x.Common().Args) > 0 {
+						m = x.Common().Args[0]
+					}
+				}
+				if m == nil {
+					continue
+				}
+				if ld, ok := m.(*ssa.UnOp); ok && ld.Op == token.MUL {
+					if gl, ok := ld.X.(*ssa.Global); ok && fn.Name() != "init" && !underWriteLock(in) {
+						r.bad(rule, fn, "write into the package-level map "+gl.Name(), in.Pos(), "reading or printing writes into a map all goroutines share, without a lock: two reads at the same time end the process with 'fatal error: concurrent map writes', which no recover handler and no try/catch can intercept")
+					}
+				}
+			}
+		}
+	}
+	r.add(rule, nil, "call closure of the reading and printing entry points", token.NoPos, "ok", fmt.Sprintf("%d functions examined", n))
+	r.floor(rule, "functions in the call closure of the reader and printer", n, 30)
+}
+
+// underWriteLock: a call of (*sync.Mutex).Lock or (*sync.RWMutex).Lock in the same function dominates the
+// instruction (the write is serialised by some lock; which one is the business of C11).
+func underWriteLock(in ssa.Instruction) bool {
+	fn := in.Parent()
+	for _, b := range fn.Blocks {
+		for _, x := range b.Instrs {
+			if x == in {
+				break
+			}
+			c, ok := x.(*ssa.Call)
+			if !ok || c.Call.StaticCallee() == nil || c.Call.StaticCallee().Name() != "Lock" || fnPkgPath(c.Call.StaticCallee()) != "sync" {
+				continue
+			}
+			if b == in.Block() || b.Dominates(in.Block()) {
+				return true
+			}
+		}
+	}
+	return false
 }
